@@ -151,6 +151,10 @@ func (meta *DefinitionMeta) UnmarshalYAML(value *yaml.Node) error {
 }
 
 func (rec *RecordDefinition) UnmarshalYAML(value *yaml.Node) error {
+	if value.Kind != yaml.MappingNode && len(value.Content) > 0 {
+		return parseError(value, "a !record must be specified as a mapping with `fields` and optionally `computedFields`")
+	}
+
 	parsedFields := false
 	for i := 0; i < len(value.Content); i += 2 {
 		k := value.Content[i]
